@@ -320,7 +320,16 @@ func (ex *exec) rangeMap(m *smap, instr *ssa.Range) iter {
 	for i := range order {
 		order[i] = i
 	}
-	if ex.permute && n >= 2 && n <= int(boundOf(ex, "permute", 4)) {
+	if ex.permute && n >= 2 && boundOf(ex, "permutemode", 0) == 1 {
+		// cheap variant: insertion order or its reverse
+		c := ex.decide(2, nil)
+		ex.choices = append(ex.choices, choiceRec{"maporder", 2, c})
+		if c == 1 {
+			for i, j := 0, n-1; i < j; i, j = i+1, j-1 {
+				order[i], order[j] = order[j], order[i]
+			}
+		}
+	} else if ex.permute && n >= 2 && n <= int(boundOf(ex, "permute", 4)) {
 		rem := append([]int{}, order...)
 		order = order[:0]
 		for len(rem) > 1 {
